@@ -89,6 +89,7 @@ def main():
     greville_kernel(out)
     rs = np.random.RandomState(0)
     UB = 1234.5
+    UB2 = 4321.5
     for sname, build in systems().items():
         for N in (2, 3, 5):
             for T in (1.0, 2.5):
@@ -102,6 +103,10 @@ def main():
                             ocp = Ocp(t0=t0, T=T)
                             S = build(ocp)
                             ocp.subject_to(S["con"]() <= UB, refine=refine)
+                            # a second path constraint with ANOTHER refinement (non-dividing where possible): each on its own grid
+                            refine2 = {1: 2, 2: 3, 3: 2}[refine]
+                            first = S["chains"][0][0][1]
+                            ocp.subject_to(first <= UB2, refine=refine2)
                             ocp.add_objective(ocp.at_tf(S["chains"][0][0][1]))
                             ocp.method(SplineMethod(N=N, grid=grid)); ocp.solver("ipopt")
                             ocp._transcribed
@@ -116,7 +121,8 @@ def main():
                                     exprs += [ca.vec(ca.MX(tg)), ca.vec(ca.MX(cg)), ca.vec(ca.MX(ts)), ca.vec(ca.MX(vs))]
                                     names.append(nm)
                             tr, cr = ocp.sample(S["con"](), grid="control", refine=refine)
-                            F = ca.Function("F", [opti.x, opti.p], exprs + [ca.vec(ca.MX(cr)), opti.g, opti.lbg, opti.ubg])
+                            tr2, cr2 = ocp.sample(first, grid="control", refine=refine2)
+                            F = ca.Function("F", [opti.x, opti.p], exprs + [ca.vec(ca.MX(cr)), opti.g, opti.lbg, opti.ubg, ca.vec(ca.MX(cr2))])
                             xv = rs.uniform(-1, 1, size=opti.x.numel())
                             res = [np.array(r).reshape(-1) for r in F(xv, np.zeros(opti.p.numel()))]
                         except Exception as e:
@@ -156,6 +162,11 @@ def main():
                         cvals, g, lbg, ubg = res[k], res[k + 1], res[k + 2], res[k + 3]
                         rows = [i for i in range(len(g)) if abs(ubg[i] - UB) < 1e-9]
                         okD = len(rows) == N * refine + 1 and len(cvals) == N * refine + 1 and np.max(np.abs(np.sort(g[rows]) - np.sort(cvals))) < 1e-9 * (1 + np.max(np.abs(cvals)))
+                        c2 = res[k + 4]
+                        rows2 = [i for i in range(len(g)) if abs(ubg[i] - UB2) < 1e-9]
+                        okE = len(rows2) == N * refine2 + 1 and len(c2) == N * refine2 + 1 and np.max(np.abs(np.sort(g[rows2]) - np.sort(c2))) < 1e-9 * (1 + np.max(np.abs(c2)))
+                        out.append(dict(what="second-path-constraint-on-its-own-refined-grid(refine=%d)" % refine2, config=tag, ok=bool(okE),
+                                        detail="" if okE else "%d rows with the second constraint's bound (expected %d = N*%d+1); rows %s, expression at its refined points %s" % (len(rows2), N * refine2 + 1, refine2, np.round(np.sort(g[rows2]), 4).tolist()[:8], np.round(np.sort(c2), 4).tolist()[:8])))
                         out.append(dict(what="path-constraint-at-every-refined-grid-point", config=tag, ok=bool(okD),
                                         detail="" if okD else "%d rows with the constraint's bound (expected %d); rows %s, expression at the refined points %s" % (len(rows), N * refine + 1, np.round(np.sort(g[rows]), 4).tolist()[:8], np.round(np.sort(cvals), 4).tolist()[:8])))
     return out
